@@ -780,6 +780,37 @@ fn key_cases(run: &mut Run) {
     }
 }
 
+/// `Metadata::time` over several entries: "the `time` key as_time; or, IF MISSING, the combination of prep time and cook
+/// time" — a present but unreadable `time` gives nothing, it does not fall through to the other keys
+fn time_precedence_cases(run: &mut Run, rng: &mut Rng, n: usize) {
+    const TIME: &[&str] = &["", "1h", "90", "1h 30m", "soon", "1 hour 30", "2 fortnights", "-5", "[10, 20]", "{prep: 10 min}", "{}"];
+    const PART: &[&str] = &["", "10 min", "5", "1h", "a while", "x", "-1"];
+    for i in 0..n {
+        let ci = i % run.convs.len();
+        let (t, p, c) = (*rng.pick(TIME), *rng.pick(PART), *rng.pick(PART));
+        let pk = *rng.pick(&["prep time", "prep_time"]); let ck = *rng.pick(&["cook time", "cook_time"]); let tk = *rng.pick(&["time", "duration", "time required"]);
+        let mut lines = Vec::new();
+        if !t.is_empty() { lines.push(format!("{tk}: {t}")); }
+        if !p.is_empty() { lines.push(format!("{pk}: {p}")); }
+        if !c.is_empty() { lines.push(format!("{ck}: {c}")); }
+        if lines.is_empty() { continue; }
+        rng.shuffle(&mut lines);
+        let text = format!("---\n{}\n---\nstep\n", lines.join("\n"));
+        let conv = &run.convs[ci];
+        let input = format!("Metadata::time of {text:?} with the {} converter", conv.name);
+        let r = guarded(|| conv.parser.parse(&text).output().map(|rec| {
+            let m = &rec.metadata;
+            (m.time(&conv.conv), m.get(StdKey::Time).map(|v| v.as_time(&conv.conv)), m.get(StdKey::PrepTime).and_then(|v| v.as_minutes(&conv.conv)), m.get(StdKey::CookTime).and_then(|v| v.as_minutes(&conv.conv)))
+        }));
+        let out = match r { Ok(x) => x, Err(p) => { run.panic(&input, p); continue; } };
+        let Some((got, tv, pv, cv)) = out else { run.ctx.count("time-precedence:no-output"); continue; };
+        run.ctx.eval("", got.is_some());
+        let want = match tv { Some(t) => t, None => if pv.is_some() || cv.is_some() { Some(RecipeTime::Composed { prep_time: pv, cook_time: cv }) } else { None } };
+        run.ctx.count(&format!("time-precedence:{}", match (&tv, &want) { (Some(None), _) => "time-unreadable", (Some(_), _) => "time-read", (None, Some(_)) => "composed", (None, None) => "nothing" }));
+        if got != want { run.ctx.oracle_fail(input, format!("Metadata::time gives {got:?}; documented (time key if present, else prep/cook): {want:?}"), "c13:metadata-time-precedence".into()); }
+    }
+}
+
 /// malformed stream: random texts and mutated well-formed ones through every accessor (correspondence + coupling)
 fn soup(run: &mut Run, rng: &mut Rng, n: usize) {
     let alphabet: Vec<char> = "0123456789.hm dsecinuty+-eEfaN_<>:/|,\t \u{a0}\u{2003}é日x".chars().collect();
@@ -878,5 +909,6 @@ hour-based ratios, one without a minute), plus a malformed stream of random and 
     tags_cases(&mut run, &mut rng.fork(3), 1500 * k);
     nameurl_cases(&mut run, &mut rng.fork(4), 1500 * k);
     locale_cases(&mut run, &mut rng.fork(5), 600 * k);
+    time_precedence_cases(&mut run, &mut rng.fork(7), 1500 * k);
     soup(&mut run, &mut rng.fork(6), 2500 * k);
 }
